@@ -37,12 +37,17 @@ type runLevelCase struct {
 	Silent   map[int]bool
 	Noise    int
 	Seed     uint64
+	Faults   []wireFault // optional injected wire faults (C10 extra stream)
 }
 
 type runLevelOutcome struct {
-	Err   error
-	Hops  []*result.TracerouteHop
-	Probe int
+	Err        error
+	Hops       []*result.TracerouteHop
+	Probe      int
+	SrcClose   int
+	WriteCalls int // WriteTo calls including faulted ones
+	SnkClose   int
+	UseAfter   []string
 }
 
 func flowOfProbe(p []byte) (flowInfo, string, int) {
@@ -86,6 +91,7 @@ func runRunLevel(t *testing.T, c runLevelCase) runLevelOutcome {
 		packets.VerifSetSourceSinkFactory(func(addr netip.Addr, _ bool) (packets.SourceSinkHandle, bool, error) {
 			wire = newMemWire()
 			wire.blockWhenEmpty = true
+			wire.faults = c.Faults
 			wire.onWrite = func(p []byte, _ netip.AddrPort) {
 				out.Probe++
 				fl, kind, ttl := flowOfProbe(p)
@@ -162,6 +168,14 @@ func runRunLevel(t *testing.T, c runLevelCase) runLevelOutcome {
 		}
 		if run != nil {
 			out.Hops = run.Hops
+		}
+		if wire != nil {
+			wire.mu.Lock()
+			out.SrcClose, out.SnkClose, out.UseAfter = wire.srcClose, wire.snkClose, append([]string(nil), wire.useAfter...)
+			wire.mu.Unlock()
+			wire.log.mu.Lock()
+			out.WriteCalls = wire.log.counts["write"]
+			wire.log.mu.Unlock()
 		}
 	})
 	return out
